@@ -325,10 +325,17 @@ def e_poly(c):
     return Call('poly', teneva.poly, [c.own(list(c.n))], kw)
 
 
-def _rshape(c):
+def _nshape(c):
+    # now and then a larger tensor than the scenario's shape (sizes matter for buffer-size dependent paths)
+    if c.rng.random() < 0.25:
+        return [int(c.rng.integers(4, 11)) for _ in range(int(c.rng.integers(2, 6)))]
+    return list(c.n)
+
+
+def _rshape(c, d=None):
     if c.rng.random() < 0.5:
-        return _ranks(c)
-    d = len(c.n)
+        return _ranks(c) + (int(c.rng.integers(0, 4)) if d is not None and d != len(c.n) else 0)
+    d = d or len(c.n)
     return c.own([1] + [int(c.rng.integers(1, 4)) for _ in range(d - 1)] + [1])
 
 
@@ -337,8 +344,9 @@ def e_rand(c):
     kw = {'seed': c.seed()}
     if c.rng.random() < 0.5:
         kw.update(a=-2.0, b=3.0)
-    n = c.own(np.array(c.n)) if c.rng.random() < 0.5 else c.own(list(c.n))
-    return Call('rand', teneva.rand, [n, _rshape(c)], kw, seed_kw='seed')
+    nn = _nshape(c)
+    n = c.own(np.array(nn)) if c.rng.random() < 0.5 else c.own(list(nn))
+    return Call('rand', teneva.rand, [n, _rshape(c, len(nn))], kw, seed_kw='seed')
 
 
 @entry()
@@ -356,7 +364,8 @@ def e_rand_norm(c):
     kw = {'seed': c.seed()}
     if c.rng.random() < 0.5:
         kw.update(m=1.0, s=0.5)
-    return Call('rand_norm', teneva.rand_norm, [c.own(list(c.n)), _rshape(c)], kw, seed_kw='seed')
+    nn = _nshape(c)
+    return Call('rand_norm', teneva.rand_norm, [c.own(nn), _rshape(c, len(nn))], kw, seed_kw='seed')
 
 
 @entry(weight=2)
@@ -364,7 +373,8 @@ def e_rand_stab(c):
     kw = {'seed': c.seed()}
     if c.rng.random() < 0.5:
         kw['noise'] = 1e-3
-    return Call('rand_stab', teneva.rand_stab, [c.own(list(c.n)), _rshape(c)], kw, seed_kw='seed')
+    nn = _nshape(c)
+    return Call('rand_stab', teneva.rand_stab, [c.own(nn), _rshape(c, len(nn))], kw, seed_kw='seed')
 
 
 # ------------------------------------------------------------------ core
